@@ -250,9 +250,11 @@ func (t *Tree) Set(k, v uint64) {
 	}
 	root := t.set(1, k, v)
 	if root.isFull() {
+		// Read what is needed from the root before split and newNode may move the buffer.
+		bits := root.bits()
 		right := t.split(1)
 		rightID := right.pageID()
-		left := t.newNode(root.bits())
+		left := t.newNode(bits)
 		// Re-read the root and the right node as the underlying buffer for tree might have
 		// changed during split and newNode.
 		root = t.node(1)
